@@ -102,6 +102,16 @@ impl ArgMatcher {
         self.matches.args.remove(arg).is_some()
     }
 
+    /// A member of `group` was removed: the group is only as present as its remaining members
+    pub(crate) fn remove_from_group(&mut self, group: &Id, member: &Id) {
+        if let Some(ma) = self.matches.args.get_mut(group) {
+            ma.remove_val(std::ffi::OsStr::new(member.as_str()));
+            if ma.num_vals() == 0 {
+                self.matches.args.remove(group);
+            }
+        }
+    }
+
     pub(crate) fn contains(&self, arg: &Id) -> bool {
         self.matches.args.contains_key(arg)
     }
